@@ -415,3 +415,67 @@ func containsNode(n ast.Node, pred func(ast.Node) bool) bool {
 	})
 	return found
 }
+
+// PathFromBlock is like PathAvoiding but starts at the beginning of a block
+// and accepts a block level target (e.g. "the loop header is reached again").
+func (f *FCFG) PathFromBlock(start *cfg.Block, target, barrier func(ast.Node) bool, blockTarget func(*cfg.Block) bool) (bool, []ast.Node) {
+	visited := map[int32]bool{}
+	var trail []ast.Node
+	var walk func(b *cfg.Block, first bool) bool
+	walk = func(b *cfg.Block, first bool) bool {
+		if !first && blockTarget != nil && blockTarget(b) {
+			return true
+		}
+		mark := len(trail)
+		for _, n := range b.Nodes {
+			if target != nil && target(n) {
+				trail = append(trail, n)
+				return true
+			}
+			if barrier != nil && barrier(n) {
+				trail = trail[:mark]
+				return false
+			}
+		}
+		if len(b.Nodes) > 0 {
+			trail = append(trail, b.Nodes[len(b.Nodes)-1])
+		}
+		for _, s := range b.Succs {
+			if blockTarget != nil && blockTarget(s) {
+				return true
+			}
+			if visited[s.Index] {
+				continue
+			}
+			visited[s.Index] = true
+			if walk(s, false) {
+				return true
+			}
+		}
+		trail = trail[:mark]
+		return false
+	}
+	visited[start.Index] = true
+	if walk(start, true) {
+		return true, trail
+	}
+	return false, nil
+}
+
+// RangeBlocks returns the body, loop and done blocks of a range statement.
+func (f *FCFG) RangeBlocks(rs *ast.RangeStmt) (body, loop, done *cfg.Block) {
+	for _, b := range f.G.Blocks {
+		if b.Stmt != ast.Stmt(rs) {
+			continue
+		}
+		switch b.Kind {
+		case cfg.KindRangeBody:
+			body = b
+		case cfg.KindRangeLoop:
+			loop = b
+		case cfg.KindRangeDone:
+			done = b
+		}
+	}
+	return
+}
